@@ -287,3 +287,27 @@ def analyse_cube(spec: dict) -> dict:
         out["error"] = f"{type(e).__name__}: {e}\n{traceback.format_exc()[-3000:]}"
     out["wall"] = round(time.time() - t0, 3)
     return out
+
+
+def main(argv):
+    """python -m symkit.worker <specs.json> <out.jsonl>: analyse a chunk of cubes, appending
+    one JSON line per finished cube (so the driver knows what was done if we crash)."""
+    import json
+
+    from symkit import worker as _real  # not __main__: the generated wrappers import symkit.worker
+
+    with open(argv[0]) as f:
+        specs = json.load(f)
+    with open(argv[1], "a") as out:
+        for i, spec in enumerate(specs):
+            out.write(json.dumps({"started": i}) + "\n")
+            out.flush()
+            res = _real.analyse_cube(spec)
+            res["index"] = i
+            out.write(json.dumps(res, default=repr) + "\n")
+            out.flush()
+    return 0
+
+
+if __name__ == "__main__":
+    sys.exit(main(sys.argv[1:]))
